@@ -316,6 +316,35 @@ theorem toM_householder_orthogonal (sq : Rat → Rat) (k : Nat) (A H : Mat) (h :
   rw [← Finset.sum_mul, ← hsq]
   field_simp
 
+/-! ### known finding: Eigensystem / Eigenvectors (DESIGN.md §6 C15) -/
+
+/-- **known finding, on the model**: handed the exact eigenvalue 2 of diag(2,1), the first thing
+    `Find_Eigenvector_Rayleigh` does is to invert `M − 2·1 = diag(0,−1)`, which is singular:
+    `Inverse()` stops the process ("not invertible").  In floating point the eigenvalue returned by
+    `Eigenvalues` is exact for a diagonal matrix, so the C++ does the same
+    (replay: `c15.eigensystem 2 0x1p+1 0x0p+0 0x0p+0 0x1p+0` → err). -/
+theorem eigensystem_witness (sq : Rat → Rat) (fuel : Nat) :
+    findEigenvectorRayleigh sq inverseExact 2 witnessM 2 (fuel + 1) = .err := by
+  have h : inverseExact 2 (shifted 2 witnessM 2) = none := by decide +kernel
+  simp only [findEigenvectorRayleigh, rayleighLoop, h]
+
+/-- FULL statement of the eigenvector clause on the model (exact arithmetic): handed an eigenvalue,
+    the Rayleigh loop returns, for some amount of fuel, an eigenpair.  It is **false** — see
+    `eigensystem_FULL_false` — and is recorded as a known finding; what does hold of the loop is
+    `rayleigh_fixed_point` / `normalize_unit` (unit vector, Rayleigh quotient). -/
+def eigensystem_FULL : Prop :=
+  ∀ (sq : Rat → Rat) (n : Nat) (M : Mat) (ev : Rat), IsEigenvalue n M ev →
+    ∃ fuel b l it, findEigenvectorRayleigh sq inverseExact n M ev fuel = .ok b l it ∧
+      matVec n M b = b.map (l * ·)
+
+theorem eigensystem_FULL_false : ¬ eigensystem_FULL := by
+  intro h
+  have hev : IsEigenvalue 2 witnessM 2 := ⟨[1, 0], rfl, ⟨1, by simp, by norm_num⟩, by decide +kernel⟩
+  obtain ⟨fuel, b, l, it, hok, _⟩ := h (fun y => y) 2 witnessM 2 hev
+  cases fuel with
+  | zero => simp [findEigenvectorRayleigh, rayleighLoop] at hok
+  | succ f => rw [eigensystem_witness] at hok; simp at hok
+
 -- non-vacuity
 example : sign2 5 (-(3 : Rat)) = -5 ∧ sign2 5 (-(-3 : Rat)) = 5 ∧ sign2 5 (-(0 : Rat)) = -5 := by
   simp [sign2, sign1]
